@@ -8,11 +8,13 @@ Imports the executable model and `Lean.Data.Json` only — no Mathlib.
 -/
 import Driver.Util
 import Driver.FuelOps
+import Driver.ResultOps
 open Lean Driver
 
 def dispatch (op : String) (j : Json) : Except String Json :=
   match (op.splitOn ".").head! with
   | "fuel" => fuelOp op j
+  | "result" => resultOp op j
   | _ => .error s!"unknown op family in '{op}'"
 
 def handle (line : String) : String :=
